@@ -1897,7 +1897,9 @@ class MacroExpander:
 
         self.parser_stack.append(ExpanderHelper(tokens))
         self.parser_stack[-1].pre_expand = pre_expand
-        self.no_expand.append(str(ident))
+        # Keep the stack balanced; with no identifier there is no name to
+        # protect (str(None) would protect a macro called "None").
+        self.no_expand.append(str(ident) if ident is not None else None)
 
         try:
             while True:
